@@ -180,13 +180,13 @@ Lemma update_panics_in_domain p st :
   wf st -> domain p (no_rates st) 0 = true -> update_panics p st = false.
 Proof.
   intros Hw Hd. unfold update_panics.
-  destruct (domain_inv p (no_rates st) 0 Hd) as [Hr [_ [_ [_ Hb]]]].
+  pose proof (threshold_ok_in_domain p (no_rates st) 0 Hd) as Hr.
   change (bonded_power (no_rates st)) with (bonded_power st) in Hr. rewrite Hr. rewrite andb_false_r. simpl.
-  apply negb_false_iff. apply forallb_forall. intros pr Hv.
-  apply tally_ok_in_domain; [exact Hb|].
-  apply valid_pairs_iff in Hv.
-  change (pair_votes st pr) with (pair_votes (no_rates st) pr).
-  apply (median_in_safe_range p (no_rates st) 0 pr); [exact Hw | exact Hd | exact Hv].
+  apply negb_false_iff.
+  pose proof (tally_all_ok p (no_rates st) 0 Hw Hd) as Hok. rewrite forallb_forall in Hok.
+  apply forallb_forall. intros pr Hv.
+  apply (Hok (pr, wmedian true (pair_votes st pr))).
+  apply in_map_iff. exists pr. split; [reflexivity | exact Hv].
 Qed.
 
 (* ---------------------------------------------------------------- period update *)
